@@ -213,13 +213,13 @@ pub fn chain_history(out: &mut crate::Out, tag: &str, seed: u64, net: NetID, blo
         let f = d.faucet(vec![mk_coin(a, 5_000_000_000, Denom::Sym, &[]), mk_coin(b, 7_000_000_000, Denom::Erg, &[]), mk_coin(a, 1_000_000_000_000, Denom::Mel, &[])], 0, 1);
         d.apply(&[f], 0, json!({"why": "bootstrap-faucet"}));
     }
-    // one large block with in-block dependencies: 70 faucets and 70 transactions spending them, delivered as a block through
+    // one large block with in-block dependencies: 135 faucets and 135 transactions spending them, delivered as a block through
     // several re-seeded hash sets (the order in which a node sees the transactions must not matter)
     let mut parent = first; // sealed state the current block extends
     if net != NetID::Mainnet && big {
         let a = d.wal.address(CovKind::True);
         let mut batch: Vec<Transaction> = vec![];
-        for i in 0..70u32 {
+        for i in 0..135u32 {
             let f = d.faucet(vec![mk_coin(a, 1_000_000 + i as u128, Denom::Mel, &[])], 0, (i % 250) as u8);
             let mut f = f;
             f.data = vec![(i % 250) as u8, (i / 250) as u8, 99].into();
@@ -301,7 +301,10 @@ pub fn chain_history(out: &mut crate::Out, tag: &str, seed: u64, net: NetID, blo
                 set.insert(t2);
                 let l: Vec<Transaction> = set.iter().cloned().collect();
                 let hh = honest_header(&par, &l, blk.proposer_action);
-                d.w.block(parent, &Block { header: blk.header, transactions: set, proposer_action: blk.proposer_action }, 0, extra("tx duplicated with different signatures", &hh, None));
+                // the same block (as a set) every time, through freshly seeded hash sets: one verdict
+                let mut x = extra("tx duplicated with different signatures", &hh, None);
+                x["agreeRes"] = json!(format!("C03res|{}|{}|signature-twin", tag, blk.header.height.0));
+                d.w.block(parent, &Block { header: blk.header, transactions: set, proposer_action: blk.proposer_action }, 0, x);
             }
             let mut t3 = t.clone();
             t3.data = vec![0x55].into();
@@ -335,6 +338,52 @@ pub fn chain_history(out: &mut crate::Out, tag: &str, seed: u64, net: NetID, blo
         for (a, name) in alts {
             let hh = honest_header(&par, &txs, a);
             d.w.block(parent, &Block { header: blk.header, transactions: blk.transactions.clone(), proposer_action: a }, 0, extra(name, &hh, None));
+        }
+        // 4b. blocks that only a defective node would build: batches the rules forbid, delivered to the new state with whatever
+        // header this implementation's own batch + seal give them (if they give one at all)
+        {
+            let mut forb: Vec<(Vec<Transaction>, String)> = vec![];
+            let sp = d.spendable();
+            let sym = sp.iter().find(|(_, x)| x.coin_data.denom == Denom::Sym && x.coin_data.value.0 > 1000).cloned();
+            let fee = sp.iter().find(|(_, x)| x.coin_data.denom == Denom::Mel && x.coin_data.value.0 > 5_000_000).cloned();
+            if let (Some(sym), Some(fee)) = (sym, fee) {
+                let e = d.view().height.epoch();
+                let amount = sym.1.coin_data.value.0 / 2;
+                if let Some(t) = crate::stakedrive::stake_tx(&mut d, &sym, &fee, amount, amount, e + 1, e + 3, 1, 0) {
+                    let h = d.view().height;
+                    for idx in 0..t.outputs.len() {
+                        let c = (CoinID::new(t.hash_nosigs(), idx as u8), CoinDataHeight { coin_data: t.outputs[idx].clone(), height: h });
+                        let mut ins = vec![c.clone()];
+                        if c.1.coin_data.denom != Denom::Mel {
+                            if let Some(f2) = d.spendable().into_iter().find(|(cc, x)| x.coin_data.denom == Denom::Mel && x.coin_data.value.0 > 5_000_000 && !t.inputs.contains(cc)) {
+                                ins.push(f2);
+                            } else {
+                                continue;
+                            }
+                        }
+                        if let Some(spd) = d.build(TxKind::Normal, &ins, vec![], 1, vec![], 0) {
+                            forb.push((vec![t.clone(), spd], format!("block of a stake transaction and a spender of its output {}", idx)));
+                        }
+                    }
+                }
+            }
+            if let Some(p) = d.random_pay() {
+                for k in [0usize, 1, 5, 10, 11, 15, 16] {
+                    let (m, name) = d.mutate_k(&p, k);
+                    if name != "same" {
+                        forb.push((vec![m], format!("block of one mutated payment ({})", name)));
+                    }
+                }
+                let mut twin = p.clone();
+                twin.sigs.push(vec![1u8; 1].into());
+                forb.push((vec![p, twin], "block of a payment and its signature twin".into()));
+            }
+            for (f, name) in forb {
+                if let Some(h) = honest_header(&s_new, &f, None) {
+                    let set: HashSet<Transaction> = f.iter().cloned().collect();
+                    d.w.block(sealed, &Block { header: h, transactions: set, proposer_action: None }, 0, extra(&name, &Some(h), None));
+                }
+            }
         }
         // 5. proofs of everything in the new state; restart it; the twin follows in lockstep
         proofs(&mut d.w, sealed);
